@@ -72,15 +72,18 @@ type StatRec struct {
 }
 
 type Recorder struct {
-	sim       *Sim
-	mu        sync.Mutex
-	Repo      []RepoWrite
-	RepoLost  []RepoWrite // writes that were refused, or accepted without taking effect
-	Sel       []SelCall
-	Stats     []StatRec
-	Recov     []RepoWrite // recovery callbacks (Name/URL/At/Step used)
-	Metrics   []MetricRec
-	SrvErrors []string // net/http server error log (recovered handler panics end up here)
+	sim          *Sim
+	mu           sync.Mutex
+	Repo         []RepoWrite
+	RepoLost     []RepoWrite      // writes that were refused, or accepted without taking effect
+	SelPending   map[string]int64 // "inc|url" / "dec|url" -> gauge updates that have started and not returned yet
+	writeSeq     int64
+	activeWrites int
+	Sel          []SelCall
+	Stats        []StatRec
+	Recov        []RepoWrite // recovery callbacks (Name/URL/At/Step used)
+	Metrics      []MetricRec
+	SrvErrors    []string // net/http server error log (recovered handler panics end up here)
 }
 
 // MetricRec is one result of the real metrics extractor (recording decorator).
@@ -146,13 +149,29 @@ func (r *recRepo) UpdateEndpoint(ctx context.Context, ep *domain.Endpoint) error
 			}
 		}
 	}
+	r.rec.mu.Lock()
+	r.rec.writeSeq++
+	mySeq := r.rec.writeSeq
+	othersActive := r.rec.activeWrites > 0
+	r.rec.activeWrites++
+	r.rec.mu.Unlock()
+	defer func() {
+		r.rec.mu.Lock()
+		r.rec.activeWrites--
+		r.rec.writeSeq++
+		r.rec.mu.Unlock()
+	}()
 	err := r.EndpointRepository.UpdateEndpoint(ctx, ep)
 	// the log records what the repository holds after the call, not what the caller asked for: a write
 	// that is refused or silently dropped must not look like a state change to the oracles
 	w := RepoWrite{Step: r.rec.sim.Steps(), At: r.rec.sim.Now(), Who: r.who, Name: ep.Name, URL: ep.URL.String(),
 		Status: ep.Status.String(), Fails: ep.ConsecutiveFailures, Mult: ep.BackoffMultiplier, NextIn: ep.NextCheckTime.Sub(ep.LastChecked),
 		Routable: ep.Status.IsRoutable(), Prev: prev, Asked: ep.Status.String()}
-	if all, gerr := r.EndpointRepository.GetAll(context.Background()); gerr == nil {
+	all, gerr := r.EndpointRepository.GetAll(context.Background())
+	r.rec.mu.Lock()
+	alone := r.rec.writeSeq == mySeq && !othersActive // no other write started, ended or was under way meanwhile
+	r.rec.mu.Unlock()
+	if gerr == nil && alone {
 		for _, e := range all {
 			if e.URLString == ep.URLString || (e.URL != nil && ep.URL != nil && e.URL.String() == ep.URL.String()) {
 				w.Status, w.Fails, w.Mult, w.NextIn, w.Routable = e.Status.String(), e.ConsecutiveFailures, e.BackoffMultiplier, e.NextCheckTime.Sub(e.LastChecked), e.Status.IsRoutable()
@@ -209,17 +228,37 @@ func (s *recSelector) Select(ctx context.Context, eps []*domain.Endpoint) (*doma
 	s.rec.mu.Unlock()
 	return ep, err
 }
+
+// The real call may be descheduled half-way (statement yields): the log entry is written when the call
+// starts and the call is counted as pending until it returns, so that an observer between the two knows
+// the gauge may or may not reflect it yet.
 func (s *recSelector) IncrementConnections(ep *domain.Endpoint) {
 	s.rec.mu.Lock()
 	s.rec.Sel = append(s.rec.Sel, SelCall{Step: s.rec.sim.Steps(), At: s.rec.sim.Now(), Op: "inc", Name: ep.Name, URL: ep.URLString})
+	s.rec.pending("inc", ep.URLString, +1)
 	s.rec.mu.Unlock()
 	s.EndpointSelector.IncrementConnections(ep)
+	s.rec.mu.Lock()
+	s.rec.pending("inc", ep.URLString, -1)
+	s.rec.mu.Unlock()
 }
 func (s *recSelector) DecrementConnections(ep *domain.Endpoint) {
 	s.rec.mu.Lock()
 	s.rec.Sel = append(s.rec.Sel, SelCall{Step: s.rec.sim.Steps(), At: s.rec.sim.Now(), Op: "dec", Name: ep.Name, URL: ep.URLString})
+	s.rec.pending("dec", ep.URLString, +1)
 	s.rec.mu.Unlock()
 	s.EndpointSelector.DecrementConnections(ep)
+	s.rec.mu.Lock()
+	s.rec.pending("dec", ep.URLString, -1)
+	s.rec.mu.Unlock()
+}
+
+// pending is called with rec.mu held.
+func (r *Recorder) pending(op, url string, d int64) {
+	if r.SelPending == nil {
+		r.SelPending = map[string]int64{}
+	}
+	r.SelPending[op+"|"+url] += d
 }
 
 type recStats struct {
